@@ -36,6 +36,8 @@ type Profile struct {
 	Kinds      []string
 	NoNot      bool
 	FETags     bool // struct fields also carry form/query/env tags
+	PValid     int  // % of primitive leaves given a value their own schema accepts
+	Repeats    int  // how many times a case is re-run (with reshuffled schema insertion orders and varying pool states)
 }
 
 func DefaultProfile() Profile {
@@ -391,7 +393,16 @@ func ProfileByName(name string) Profile {
 	p := DefaultProfile()
 	p.Name = name
 	switch name {
-	case "C01", "C02":
+	case "C01":
+		// mostly valid inputs: a single swallowed issue then yields a nil result over a violated constraint
+		p.PValid = 85
+		p.PAbsent = 8
+		p.PTests = 55
+		p.PUserTest = 15
+		p.PPtr = 25
+		p.PPT = 5
+		p.PCatch = 30
+	case "C02":
 		p.PInvalid = 45
 		p.PTests = 75
 	case "C05":
@@ -405,7 +416,10 @@ func ProfileByName(name string) Profile {
 	case "C09":
 		p.MaxFields = 4
 		p.PStruct = 40
-		p.PCatch = 30
+		p.PCatch = 50
+		p.PTests = 80
+		p.PInvalid = 45
+		p.Repeats = 7
 	case "C12":
 		p.PUserTest = 60
 		p.PPT = 50
